@@ -967,3 +967,34 @@ def is_zero(a, tol=TOL):
 def nterms(a):
     a = rf(a)
     return len(a.n.t) + (len(a.d.t) if a.df else 0)
+
+
+def regular_at_zero(x, name):
+    """conservative: x (RF/Poly) is a finite expression at name = 0 by its shape - name occurs only with non-negative whole
+    powers, inside exponentials of expressions that are themselves regular, and never in a denominator, logarithm, power
+    base or uninterpreted function"""
+    if isinstance(x, RF):
+        if x.df and depends_on(x.d, name):
+            return False
+        return regular_at_zero(x.n, name)
+    if isinstance(x, Poly):
+        for m in x.t:
+            for a, e in m.f:
+                if depends_on(e, name):
+                    return False
+                if not atom_depends(a, name):
+                    continue
+                if isinstance(a, Sym):
+                    c = e.as_const()
+                    if c is None or c < 0 or Fraction(c).denominator != 1:
+                        return False
+                elif isinstance(a, ExpA):
+                    if not regular_at_zero(a.arg, name):
+                        return False
+                    c = e.as_const()
+                    if c is None:
+                        return False
+                else:
+                    return False
+        return True
+    raise TypeError(x)
